@@ -456,4 +456,20 @@ func init() {
 		Old:    "func nameTypeExists(namesTypesCtx NamesTypesCtx, key string) bool {",
 		New:    "var spareContexts = make(chan NamesTypesCtx, 4)\n\nfunc recycleContext(ctx NamesTypesCtx) {\n\tselect {\n\tcase spareContexts <- ctx:\n\tdefault:\n\t}\n}\n\nfunc nameTypeExists(namesTypesCtx NamesTypesCtx, key string) bool {",
 		Expect: "global:process.spareContexts"})
+	addFixture(Fixture{Name: "label-characters-by-low-byte", Rule: "R-RUNE-WHOLE", File: "parser/token.go",
+		Old:    "\treturn ('a' <= ch && ch <= 'z') || ('A' <= ch && ch <= 'Z') || ('0' <= ch && ch <= '9')",
+		New:    "\tb := byte(ch)\n\treturn ('a' <= b && b <= 'z') || ('A' <= b && b <= 'Z') || ('0' <= b && b <= '9')",
+		Expect: "parser.isAlphaNum | whole-rune"})
+	addFixture(Fixture{Name: "independence-reads-the-source-mode-of-a-shift", Rule: "R-INDEPENDENCE", File: "process/typechecker.go",
+		Old:    "\tif !left.Type.Modality().CanBeDownshiftedTo(rightType.Modality()) {",
+		New:    "\tleftMode := left.Type.Modality()\n\tif downType, isDownType := left.Type.(*types.DownType); isDownType {\n\t\tleftMode = downType.From\n\t}\n\tif !leftMode.CanBeDownshiftedTo(rightType.Modality()) {",
+		Expect: "compares-the-modes-the-names-live-in"})
+	addFixture(Fixture{Name: "generated-name-search-never-advances", Rule: "R-LOOP-VARIES", File: "parser/parser.go",
+		Old:    "\t\t\tnew_p := process.NewProcess(p.proc.Body, []process.Name{{Ident: fmt.Sprintf(\"exec%d\", execCount), IsSelf: true}}, function.Type, process.LINEAR, p.position)",
+		New:    "\t\t\texecName := fmt.Sprintf(\"exec%d\", execCount)\n\t\t\tfor len(processes) > 0 && processes[0].Providers[0].Ident == execName {\n\t\t\t\texecCount += 1\n\t\t\t}\n\t\t\tnew_p := process.NewProcess(p.proc.Body, []process.Name{{Ident: execName, IsSelf: true}}, function.Type, process.LINEAR, p.position)",
+		Expect: "parser.expandProcesses | loop"})
+	addFixture(Fixture{Name: "printer-sorts-the-branches-in-place", Rule: "R-PRINT-PURE", File: "types/types.go",
+		Old:    "func stringifyBranches(options []Option) string {\n\tvar buf bytes.Buffer\n",
+		New:    "func stringifyBranches(options []Option) string {\n\tvar buf bytes.Buffer\n\tslices.SortFunc(options, func(a, b Option) int {\n\t\tif a.Label < b.Label {\n\t\t\treturn -1\n\t\t}\n\t\tif a.Label > b.Label {\n\t\t\treturn 1\n\t\t}\n\t\treturn 0\n\t})\n",
+		Expect: "(*types.SelectLabelType).String | printer:String"})
 }
